@@ -8,11 +8,9 @@ namespace Coap.Block
 open Coap.Spec.Block
 
 /-- `coap_block_build_body` as the Block2 path calls it (`total = size2` of THIS response, not a running maximum):
-the buffer never shrinks below what it held provided a buffer shorter than `size2` is not longer than the end of the
-block being stored -/
+the buffer never shrinks (fix 0b3fb08), the block is stored at its offset, every other byte stays -/
 theorem buildBody_spec2 (junk : UInt8) (buf : Option Bytes) (data : Bytes) (off size2 : Nat)
-    (hd : 0 < data.length) (hfit : off + data.length ≤ size2)
-    (hns : ∀ b, buf = some b → b.length < size2 → b.length ≤ off + data.length) :
+    (hd : 0 < data.length) (hfit : off + data.length ≤ size2) :
     ∃ b', buildBody junk buf data off size2 = some b' ∧ off + data.length ≤ b'.length ∧
       (∀ b, buf = some b → b.length ≤ b'.length) ∧ (buf = none → b'.length = size2) ∧
       (∀ i, off ≤ i → i < off + data.length → b'[i]? = data[i - off]?) ∧
@@ -39,15 +37,13 @@ theorem buildBody_spec2 (junk : UInt8) (buf : Option Bytes) (data : Bytes) (off 
         · intro b' hb'; cases hb'; exact ⟨Nat.le_refl _, fun _ _ => rfl⟩
         · intro hh; cases hh
       · rw [if_neg hc]
-        have hlt : b.length < size2 := by omega
-        have hle := hns b rfl hlt
-        refine ⟨resizeBin junk b (off + data.length), rfl, ?_, ?_, ?_⟩
-        · rw [resizeBin_length]; exact Nat.le_refl _
+        refine ⟨resizeBin junk b (if off + data.length < b.length then b.length else off + data.length), rfl, ?_, ?_, ?_⟩
+        · rw [resizeBin_length]; split <;> omega
         · intro b' hb'
           cases hb'
-          refine ⟨by rw [resizeBin_length]; exact hle, ?_⟩
+          refine ⟨by rw [resizeBin_length]; split <;> omega, ?_⟩
           intro i hi
-          exact resizeBin_get junk b _ i hi (by omega)
+          exact resizeBin_get junk b _ i hi (by split <;> omega)
         · intro hh; cases hh
   obtain ⟨b0, hb0, hfit0, hold, hnone⟩ := key
   refine ⟨memcpyAt b0 off data, hb0, by rw [memcpyAt_length _ _ _ hfit0]; exact hfit0, ?_, ?_, ?_, ?_⟩
@@ -112,6 +108,23 @@ structure StoreSpec (single : Bool) (cap : Nat) (body : Bytes) (sz : Option Nat)
   next : ∀ n s, out = CrcvOut.next n s → n = num + 1 ∧ s = szx ∧ num + 1 < nBlocks body.length szx
   noPlain : ∀ p, out ≠ CrcvOut.plain p
 
+/-- a StoreSpec for outputs that neither deliver nor record anything and leave an uninitialised / no state -/
+theorem storeSpec_inert (single : Bool) (cap : Nat) (body : Bytes) (sz : Option Nat) (pre : Ranges) (num szx : Nat)
+    (payload : Bytes) (st' : Option Crcv) (out : CrcvOut)
+    (hst : ∀ s', st' = some s' → s'.initial = true)
+    (ho : out = CrcvOut.err402 ∨ out = CrcvOut.err408 ∨ ∃ s, out = CrcvOut.restart s) :
+    StoreSpec single cap body sz pre num szx payload st' out := by
+  refine { inv := ?_, dBody := ?_, dBlock := ?_, dLast := ?_, complete := ?_, ra := ?_, grow := ?_, next := ?_, noPlain := ?_ }
+  · intro s' hs' hi; rw [hst s' hs'] at hi; cases hi
+  · intro d l hb; rcases ho with ho | ho | ⟨_, ho⟩ <;> (rw [ho] at hb; cases hb)
+  · intro off p total nx hb; rcases ho with ho | ho | ⟨_, ho⟩ <;> (rw [ho] at hb; cases hb)
+  · intro off p total hb; rcases ho with ho | ho | ⟨_, ho⟩ <;> (rw [ho] at hb; cases hb)
+  · intro hn; rcases ho with ho | ho | ⟨_, ho⟩ <;> (rw [ho] at hn; cases hn)
+  · intro off p total hb; rcases ho with ho | ho | ⟨_, ho⟩ <;> (rw [ho] at hb; cases hb)
+  · intro s' hs' hi; rw [hst s' hs'] at hi; cases hi
+  · intro n s hb; rcases ho with ho | ho | ⟨_, ho⟩ <;> (rw [ho] at hb; cases hb)
+  · intro p hb; rcases ho with ho | ho | ⟨_, ho⟩ <;> (rw [ho] at hb; cases hb)
+
 theorem more_cases (len szx k : Nat) (hk : k < nBlocks len szx) :
     (more len szx k = 1 ∧ k + 1 < nBlocks len szx ∧ k * chunkSize szx + chunkSize szx < len) ∨
     (more len szx k = 0 ∧ ¬ (k + 1 < nBlocks len szx) ∧ len ≤ k * chunkSize szx + chunkSize szx) := by
@@ -172,6 +185,7 @@ theorem crcvStore_spec (single : Bool) (cap : Nat) (junk : UInt8) (body : Bytes)
   · rw [if_pos hf] at h
     exact same _ (Or.inl rfl) h.symm
   · rw [if_neg hf] at h
+    rw [if_neg (by simp : ¬ (lg.szx ≠ lg.szx))] at h
     by_cases hrcv : checkIfReceived lg.recv num = true
     · rw [if_pos hrcv] at h
       exact same _ (Or.inr rfl) h.symm
@@ -269,19 +283,8 @@ theorem crcvStore_spec (single : Bool) (cap : Nat) (junk : UInt8) (body : Bytes)
               · intro p hb; cases hb
           | true =>
             simp only [if_true] at h
-            -- coap_block_build_body never shrinks the buffer here
-            have hns : ∀ b, lg.body = some b → b.length < size2 →
-                b.length ≤ num * chunkSize lg.szx + (slice body lg.szx num).length := by
-              intro b hb hlt
-              have hbuf := hinv.buf rfl
-              rw [hb] at hbuf
-              simp only at hbuf
-              rcases hs3 with hs3 | hs3
-              · omega
-              · have := hbuf.1 size2 hs3
-                omega
             obtain ⟨b', hb1, hb2, hb3, hb4, hb5, hb6⟩ :=
-              buildBody_spec2 junk lg.body (slice body lg.szx num) (num * chunkSize lg.szx) size2 hpos hs1 hns
+              buildBody_spec2 junk lg.body (slice body lg.szx num) (num * chunkSize lg.szx) size2 hpos hs1
             rw [hb1] at h
             simp only at h
             have hbuf' : (∀ t, sz = some t → t ≤ b'.length) ∧
@@ -330,41 +333,67 @@ theorem crcvStore_spec (single : Bool) (cap : Nat) (junk : UInt8) (body : Bytes)
               { wf := w1, cnt := w2, inRange := hin', buf := fun _ => hbuf' }
             by_cases hcont : m ≠ 0 ∨ ¬ checkAllBlocksIn rec' ((size2 + chunkSize lg.szx - 1) / chunkSize lg.szx) = true
             · rw [if_pos hcont] at h
-              cases h
-              refine { inv := ?_, dBody := ?_, dBlock := ?_, dLast := ?_, complete := ?_, ra := ?_, grow := ?_, next := ?_, noPlain := ?_ }
-              · intro s' hs' _
-                cases hs'
-                exact hinv'
-              · intro d l hb; split at hb <;> cases hb
-              · intro off p total nx hb; split at hb <;> cases hb
-              · intro off p total hb; split at hb <;> cases hb
-              · intro hn; split at hn <;> cases hn
-              · intro off p total hb; split at hb <;> cases hb
-              · intro s' hs' _ k
-                cases hs'
-                show Covers rec' k ↔ _
+              -- the recorded set grows by this block, whatever the output
+              have hgrow : ∀ o : CrcvOut, (o = CrcvOut.next (num + 1) lg.szx ∨ o = CrcvOut.wait) →
+                  ∀ k, Covers rec' k ↔ (Covers lg.recv k ∨ (k = num ∧ (o = CrcvOut.next (num + 1) lg.szx ∨ o = CrcvOut.wait ∨
+                    ∃ off p total nx, o = CrcvOut.block off p total nx))) := by
+                intro o ho k
                 rw [w3 k]
                 constructor
                 · intro hk
                   rcases hk with hk | hk
                   · exact Or.inl hk
                   · refine Or.inr ⟨hk, ?_⟩
-                    by_cases hm0 : m ≠ 0
-                    · rw [if_pos hm0]; exact Or.inl rfl
-                    · rw [if_neg hm0]; exact Or.inr (Or.inl rfl)
+                    rcases ho with ho | ho
+                    · exact Or.inl ho
+                    · exact Or.inr (Or.inl ho)
                 · intro hk
                   rcases hk with hk | ⟨hk, _⟩
                   · exact Or.inl hk
                   · exact Or.inr hk
-              · intro n s hb
-                by_cases hm0 : m ≠ 0
-                · rw [if_pos hm0] at hb
+              by_cases hm0 : m ≠ 0
+              · rw [if_pos hm0] at h
+                cases h
+                refine { inv := ?_, dBody := ?_, dBlock := ?_, dLast := ?_, complete := ?_, ra := ?_, grow := ?_, next := ?_, noPlain := ?_ }
+                · intro s' hs' _
+                  cases hs'
+                  exact hinv'
+                · intro d l hb; cases hb
+                · intro off p total nx hb; cases hb
+                · intro off p total hb; cases hb
+                · intro hn; cases hn
+                · intro off p total hb; cases hb
+                · intro s' hs' _ k
+                  cases hs'
+                  exact hgrow _ (Or.inl rfl) k
+                · intro n s hb
                   cases hb
                   rcases hmc with ⟨e1, e2, _⟩ | ⟨e1, e2, _⟩
                   · exact ⟨rfl, rfl, e2⟩
                   · exact (hm0 (by rw [hm, e1])).elim
-                · rw [if_neg hm0] at hb; cases hb
-              · intro p hb; split at hb <;> cases hb
+                · intro p hb; cases hb
+              · rw [if_neg hm0] at h
+                by_cases hsh : (slice body lg.szx num).length % chunkSize lg.szx ≠ 0
+                · -- "Short packet is not the end of the body": blocks forgotten (initial), 4.08
+                  rw [if_pos hsh] at h
+                  cases h
+                  exact storeSpec_inert _ _ _ _ _ _ _ _ _ _ (by intro s' hs'; cases hs'; rfl) (Or.inr (Or.inl rfl))
+                · rw [if_neg hsh] at h
+                  cases h
+                  refine { inv := ?_, dBody := ?_, dBlock := ?_, dLast := ?_, complete := ?_, ra := ?_, grow := ?_, next := ?_, noPlain := ?_ }
+                  · intro s' hs' _
+                    cases hs'
+                    exact hinv'
+                  · intro d l hb; cases hb
+                  · intro off p total nx hb; cases hb
+                  · intro off p total hb; cases hb
+                  · intro hn; cases hn
+                  · intro off p total hb; cases hb
+                  · intro s' hs' _ k
+                    cases hs'
+                    exact hgrow _ (Or.inr rfl) k
+                  · intro n s hb; cases hb
+                  · intro p hb; cases hb
             · rw [if_neg hcont] at h
               cases h
               have hm0 : m = 0 := by
@@ -455,23 +484,6 @@ theorem crcvInit_facts (lg : Crcv) (szx size2 : Nat) (r : Resp) :
   | false =>
     simp only [Bool.false_eq_true, if_false]
     split <;> exact ⟨hi, rfl, rfl, rfl, fun _ => ⟨rfl, rfl⟩⟩
-
-/-- a StoreSpec for outputs that neither deliver nor record anything and leave an uninitialised / no state -/
-theorem storeSpec_inert (single : Bool) (cap : Nat) (body : Bytes) (sz : Option Nat) (pre : Ranges) (num szx : Nat)
-    (payload : Bytes) (st' : Option Crcv) (out : CrcvOut)
-    (hst : ∀ s', st' = some s' → s'.initial = true)
-    (ho : out = CrcvOut.err402 ∨ ∃ s, out = CrcvOut.restart s) :
-    StoreSpec single cap body sz pre num szx payload st' out := by
-  refine { inv := ?_, dBody := ?_, dBlock := ?_, dLast := ?_, complete := ?_, ra := ?_, grow := ?_, next := ?_, noPlain := ?_ }
-  · intro s' hs' hi; rw [hst s' hs'] at hi; cases hi
-  · intro d l hb; rcases ho with ho | ⟨_, ho⟩ <;> (rw [ho] at hb; cases hb)
-  · intro off p total nx hb; rcases ho with ho | ⟨_, ho⟩ <;> (rw [ho] at hb; cases hb)
-  · intro off p total hb; rcases ho with ho | ⟨_, ho⟩ <;> (rw [ho] at hb; cases hb)
-  · intro hn; rcases ho with ho | ⟨_, ho⟩ <;> (rw [ho] at hn; cases hn)
-  · intro off p total hb; rcases ho with ho | ⟨_, ho⟩ <;> (rw [ho] at hb; cases hb)
-  · intro s' hs' hi; rw [hst s' hs'] at hi; cases hi
-  · intro n s hb; rcases ho with ho | ⟨_, ho⟩ <;> (rw [ho] at hb; cases hb)
-  · intro p hb; rcases ho with ho | ⟨_, ho⟩ <;> (rw [ho] at hb; cases hb)
 
 /-- the response would pass the ETag tests against the (initialised) lg_crcv `s` -/
 def PassesEtag (s : Crcv) (r : Resp) : Prop :=
@@ -583,7 +595,7 @@ theorem crcvBlock_spec (single : Bool) (cap : Nat) (junk : UInt8) (body : Bytes)
     by_cases hne : e ≠ lg2.etag
     · rw [if_pos hne] at h
       cases h
-      exact storeSpec_inert _ _ _ _ _ _ _ _ _ _ (by intro s' hs'; cases hs'; rfl) (Or.inr ⟨_, rfl⟩)
+      exact storeSpec_inert _ _ _ _ _ _ _ _ _ _ (by intro s' hs'; cases hs'; rfl) (Or.inr (Or.inr ⟨_, rfl⟩))
     · rw [if_neg hne] at h
       have heq : e = lg2.etag := by
         apply Classical.byContradiction; intro hh; exact hne hh
@@ -726,6 +738,9 @@ theorem crcvStore_perblock (cap : Nat) (junk : UInt8) (lg : Crcv) (num m szx : N
   by_cases hf : fmt ≠ lg.fmt
   · rw [if_pos hf]; exact ⟨fun n s h => (by cases h), fun h => (by cases h)⟩
   · rw [if_neg hf]
+    by_cases hsz : szx ≠ lg.szx
+    · rw [if_pos hsz]; exact ⟨fun n s h => (by cases h), fun h => (by cases h)⟩
+    rw [if_neg hsz]
     by_cases hr : checkIfReceived lg.recv num = true
     · rw [if_pos hr]; exact ⟨fun n s h => (by cases h), fun h => (by cases h)⟩
     · rw [if_neg hr]
